@@ -2,6 +2,7 @@ package p20
 
 import (
 	"regexp"
+	"sort"
 	"strings"
 
 	"github.com/nyaruka/goflow/excellent"
@@ -133,9 +134,14 @@ func stringsOf(v any) []string {
 		}
 		return out
 	case map[string]any:
+		keys := make([]string, 0, len(t))
+		for k := range t {
+			keys = append(keys, k)
+		}
+		sort.Strings(keys)
 		var out []string
-		for _, x := range t {
-			if s, ok := x.(string); ok {
+		for _, k := range keys {
+			if s, ok := t[k].(string); ok {
 				out = append(out, s)
 			}
 		}
@@ -208,6 +214,17 @@ func routerTemplates(rt map[string]any, loc localization, langs []string, flowLa
 		}
 	}
 	return out
+}
+
+// waitTemplates: the phone number of a dial wait is a template evaluated when the wait begins.
+func waitTemplates(rt map[string]any) []string {
+	w := obj(rt["wait"])
+	if str(w["type"]) == "dial" {
+		if p := str(w["phone"]); p != "" {
+			return []string{p}
+		}
+	}
+	return nil
 }
 
 // ---------------------------------------------------------------------------------------------------
